@@ -30,17 +30,24 @@ def std(qs=120, ts=2400, mcq=None, mct=None, rq=("Replay_quick.cfg",), rt=("Repl
     }
 
 
+DAQ = dict(module="MC_DoubleArray.tla", cfg="MC_DoubleArray_quick.cfg")
+DAT = dict(module="MC_DoubleArray.tla", cfg="MC_DoubleArray_thorough.cfg", timeout=3000)
+
 PLAN = {p: std() for p in TITLES}
-PLAN["C16"] = {"quick": dict(invocations=60), "thorough": dict(invocations=600)}
+# the double-array layout (exact BuildHelper ring, evictions, sanitising, closure, order independence)
+for _p in ("C01", "C07", "C10", "C11", "C14"):
+    PLAN[_p] = std(mcq=[DAQ], mct=[DAT])
+PLAN["C16"] = {
+    "quick": dict(invocations=160, mc=[dict(module="MC_Daacfind.tla", cfg="MC_Daacfind_quick.cfg")]),
+    "thorough": dict(invocations=2000, mc=[dict(module="MC_Daacfind.tla", cfg="MC_Daacfind_thorough.cfg", timeout=2400)]),
+}
 
 # ---------------------------------------------------------------------------------------------
 # MANIFEST texts
 # ---------------------------------------------------------------------------------------------
 CLAIMED = ["C01", "C02", "C03", "C04", "C05", "C06", "C07", "C08", "C09", "C10", "C11", "C12",
-           "C13", "C14", "C15"]
-NOT_APPLICABLE = {
-    "C16": "not claimed yet: the Daacfind specification and the CLI conformance driver are still being built",
-}
+           "C13", "C14", "C15", "C16"]
+NOT_APPLICABLE = {}
 _COMMON_NOTE = ("Trusted: TLC 1.8.0 and the CommunityModules Json/IOUtils; the Rust harness (harness/src) that "
                 "records events faithfully; the cfg(daachorse_verif) accessors being read-only. Bounds: the model "
                 "checking is exhaustive only within the small constants of the MC_*.cfg files; larger inputs are "
@@ -52,6 +59,11 @@ _GEN = ("TLC checks the property's declarative meaning (spec/Semantics.tla) as a
         "automaton obtained through the implementation's own child/next-state functions, are validated by TLC "
         "against the same specification. ")
 LEVEL_TEXT = {p: _GEN + TITLES[p] for p in TITLES}
+LEVEL_TEXT["C16"] = ("TLC checks spec/Daacfind.tla (line filter through the modelled find iterator, colour-depth machine "
+                     "over the modelled no-suffix iterator) against the declarative meaning (a line is printed iff a "
+                     "pattern occurs in it; highlighted bytes = union of all occurrences) for all small pattern lists "
+                     "and lines; recorded invocations of the real binary built from /repo (flags, -p/-f, stdin/files, "
+                     "SGR-parsed stdout, exit status) are validated by TLC against spec/TraceCli.tla.")
 LEVEL_NOTE = {p: _COMMON_NOTE for p in TITLES}
 TECHNIQUE = {p: "TLA+ specification model-checked with TLC + trace validation of the implementation (code->spec) "
                 "+ replay of TLC-generated behaviours (spec->code)" for p in TITLES}
